@@ -1,3 +1,4 @@
+import EaselModel.Buffer.BufConsts
 /-! # C05 — executable model of `esl_buffer.c` (hand-written, kind H)
 
 Mirrors, statement by statement, `buffer_refill`, `buffer_countline`, `buffer_skipsep`, `buffer_newline`,
@@ -43,6 +44,9 @@ structure Buf where
   pagesize : Nat
   mode : Mode
   memgen : Nat
+  /-- `bf->stable` (fix C05-stable-anchor-keep-oldmem, round 6): TRUE from a successful `SetStableAnchor` on a stream until the
+      last anchor is raised. Ghost state (never read) when `BufConsts.stableRetire = false`, i.e. on a tree without the fix. -/
+  stab : Bool
   deriving DecidableEq, Repr, Inhabited
 
 namespace Buf
@@ -92,7 +96,7 @@ def dropFront (b : Buf) (ndel : Nat) : Buf :=
 /-- "Relocation, shift left to conserve memory". Since b86a62d an anchor ahead of the cursor keeps everything from the
     cursor on (`ndel = pos; anchor -= ndel`); before that fix `pos` went negative. The result is always `some` (the
     `Option` is kept for the callers' `match`). -/
-def shiftLeft (b : Buf) : Option Buf :=
+def shiftLeft0 (b : Buf) : Option Buf :=
   if b.balloc - b.n < b.pagesize ∧ 0 < b.pos then
     match b.anchor with
     | none => some (dropFront b b.pos)
@@ -100,9 +104,24 @@ def shiftLeft (b : Buf) : Option Buf :=
                 else some (dropFront { b with anchor := some (a - b.pos) } b.pos)
   else some b
 
+/-- the repaired `buffer_refill` is in force and a stable anchor holds: `bf->stable` (the field exists only in the repaired tree;
+    `BufConsts.stableRetire` is regenerated from esl_buffer.c/.h of the working tree) -/
+def pinned (b : Buf) : Bool := BufConsts.stableRetire && b.stab
+
+/-- `if (bf->balloc - bf->n < bf->pagesize && bf->pos > 0 && ! bf->stable) { … }`: never shift under a stable anchor -/
+def shiftLeft (b : Buf) : Option Buf := if pinned b then some b else shiftLeft0 b
+
 /-- `ESL_REALLOC(bf->mem, n + pagesize)` when the next page does not fit -/
-def grow (b : Buf) : Buf :=
+def grow0 (b : Buf) : Buf :=
   if b.n + b.pagesize > b.balloc then { b with balloc := b.n + b.pagesize, memgen := b.memgen + 1 } else b
+
+/-- under a stable anchor (repaired code): `newalloc = ESL_MAX(n + pagesize, 2*balloc)`, a NEW block is allocated, the window copied,
+    and the old block kept on `bf->retired` until the anchor is gone — no pointer handed out is invalidated, so `memgen` stays.
+    (The C condition also asks `bf->mem != NULL`, which holds whenever a stream is open: every paged opener allocates a page.) -/
+def growR (b : Buf) : Buf :=
+  if b.n + b.pagesize > b.balloc then { b with balloc := max (b.n + b.pagesize) (2 * b.balloc) } else b
+
+def grow (b : Buf) : Buf := if pinned b then growR b else grow0 b
 
 /-- `nread = fread(mem+n, 1, pagesize, fp); n += nread; return (nread == 0 && pos == n) ? eslEOF : eslOK` -/
 def load (b : Buf) : St × Buf :=
@@ -137,7 +156,7 @@ def raiseAnchor (b : Buf) (offset : Nat) : Buf :=
   | none => b
   | some a =>
     if b.base ≤ offset ∧ a = offset - b.base then
-      if b.nanchor - 1 = 0 then { b with nanchor := 0, anchor := none }
+      if b.nanchor - 1 = 0 then { b with nanchor := 0, anchor := none, stab := false }
       else { b with nanchor := b.nanchor - 1 }
     else b
 
@@ -150,8 +169,9 @@ def setStableAnchor (b : Buf) (offset : Nat) : St × Buf :=
       | none => (.fault, b1)            -- cannot happen: SetAnchor leaves an anchor
       | some a =>
         -- ndel = ESL_MIN(anchor, pos); anchor -= ndel   (b86a62d; before, an anchor ahead of the cursor made pos negative)
-        if a ≤ b1.pos then (.ok, dropFront { b1 with anchor := some 0 } a)
-        else (.ok, dropFront { b1 with anchor := some (a - b1.pos) } b1.pos)
+        -- `bf->stable = TRUE`
+        if a ≤ b1.pos then (.ok, { dropFront { b1 with anchor := some 0 } a with stab := true })
+        else (.ok, { dropFront { b1 with anchor := some (a - b1.pos) } b1.pos with stab := true })
     | (st, b1) => (st, b1)
 
 /-! ## lines -/
@@ -434,7 +454,7 @@ def setOffset (b : Buf) (offset : Nat) : Out × Buf :=
 
 def mkBuf (src : Bytes) (ps : Nat) (mode : Mode) : Buf :=
   { src := src, rest := src, fed := 0, hasfp := true, eof := false, mem := [], balloc := 0, pos := 0, base := 0,
-    anchor := none, nanchor := 0, pagesize := ps, mode := mode, memgen := 0 }
+    anchor := none, nanchor := 0, pagesize := ps, mode := mode, memgen := 0, stab := false }
 
 /-- whole input in memory (`OpenMem`, slurped file, mmap) -/
 def openWhole (src : Bytes) (ps : Nat) (mode : Mode) (balloc : Nat) : Buf :=
